@@ -4,8 +4,7 @@ open Amoco.Fmt.Props
 #print axioms hex_bad_checksum_rejected
 #print axioms srec_roundtrip
 #print axioms srec_bad_checksum_rejected
-#print axioms hex_address_composition_partial
-#print axioms hex_address_mixed_witness
+#print axioms hex_address_composition
 #print axioms generated_eq_model
 #print axioms elf_layouts
 #print axioms unpack_reads_layout
